@@ -470,6 +470,8 @@ RUNLOOP_RECIPES = [
     {"kind": "toy_opt", "algorithm": "SGD-momentum", "scheduler": "none", "loss": "map", "iterations": 6, "freq": 2, "param_dtype": "default"},
     {"kind": "toy_opt", "algorithm": "LBFGS", "scheduler": "none", "loss": "map", "iterations": 5, "freq": 2, "param_dtype": "default"},
     {"kind": "toy_opt", "algorithm": "Adam", "scheduler": "none", "loss": "ELBO", "samples": 2, "iterations": 5, "freq": 3, "param_dtype": "default", "convergence": True},
+    {"kind": "toy_opt", "algorithm": "SGD-momentum", "scheduler": "none", "loss": "map", "iterations": 6, "freq": 2, "param_dtype": "default", "checkpoint_all": True},
+    {"kind": "toy_opt", "algorithm": "LBFGS", "scheduler": "none", "loss": "map", "iterations": 4, "freq": 2, "param_dtype": "default", "checkpoint_all": True},
     {"kind": "toy_mcmc", "operators": ["sliding", "scaler"], "iterations": 7, "freq": 3},
     {"kind": "toy_mcmc", "operators": ["hmc-adaptive"], "iterations": 5, "freq": 2},
 ]
@@ -483,7 +485,8 @@ def _runloop_setup(sc):
     recipe = sc["recipe"]
     spec, meta = c17.build_spec(recipe)
     fs = SimFS(buffer_size=sc["buffer"])
-    first = c17.build_spec(dict(recipe, iterations=recipe["freq"]))[0] if sc["resumed"] else spec
+    # the earlier run always writes the plain checkpoint name (no numbered files)
+    first = c17.build_spec(dict(recipe, checkpoint_all=False, iterations=recipe["freq"] if sc["resumed"] else recipe["iterations"]))[0]
     ctl0, out0 = c17.run_incarnation(fs, first, meta, "float64", sc["seed"], 0, {"kind": "none"}, EventLog(), False)
     prev = fs.durable(NAME)
     snap = fs.snapshot()
